@@ -611,6 +611,16 @@ func (e *Enc) evalCall(env *Env, n CCall, cur, old *State) Val {
 		return e.eval(env, n.Args[i], cur, old)
 	}
 	switch n.Fun {
+	case "atloop":
+		// atloop(e): the value of e when the loop whose invariant this is was reached (the state
+		// right before its first iteration); logs and heap are read from that state
+		if len(n.Args) != 1 {
+			e.evalFail(env, "atloop takes one argument")
+		}
+		if env.fr == nil || env.fr.loopHdr == nil || env.fr.loopEntry == nil || env.fr.loopEntry[env.fr.loopHdr] == nil {
+			e.evalFail(env, "atloop(...) outside a loop invariant")
+		}
+		return e.eval(env, n.Args[0], env.fr.loopEntry[env.fr.loopHdr], old)
 	case "old":
 		if len(n.Args) != 1 {
 			e.evalFail(env, "old takes one argument")
